@@ -199,7 +199,11 @@ class Exporter:
         return tid, scope, opts
 
     def v9_otemplate_record(self, tid, scope, opts):
-        return (be(tid, 2) + be(4 * len(scope), 2) + be(4 * len(opts), 2)
+        # the two lengths are in bytes; a parser that divides by 4 accepts 4k+1..4k+3 for k
+        # specifiers: such a record must still come back as it was sent
+        rs = self.rng.choice([1, 2, 3]) if (not self.conformant and self.rng.random() < 0.3) else 0
+        ro = self.rng.choice([1, 2, 3]) if (not self.conformant and self.rng.random() < 0.3) else 0
+        return (be(tid, 2) + be(4 * len(scope) + rs, 2) + be(4 * len(opts) + ro, 2)
                 + b"".join(be(n, 2) + be(l, 2) for n, l in scope) + b"".join(be(n, 2) + be(l, 2) for n, l in opts))
 
     def v9_record(self, fs):
